@@ -308,18 +308,21 @@ impl<E: FieldElement> OpFlags<E> {
         no_shift_flags[5] = no_shift_flags[4] + mov4_flag;
         no_shift_flags[6] = no_shift_flags[5] + mov5_flag;
         no_shift_flags[7] = no_shift_flags[6] + mov6_flag;
-        no_shift_flags[8] =
-            no_shift_flags[7] + mov7_flag + degree7_op_flags[24] - degree7_op_flags[28];
+        // PIPE; MSTREAM: items 8..15 are copied over, except for the address at position 12
+        let pipe_mstream_flag = degree5_op_flags[2] + degree5_op_flags[3];
+        no_shift_flags[8] = no_shift_flags[7] + mov7_flag + degree7_op_flags[24]
+            - degree7_op_flags[28]
+            + pipe_mstream_flag;
 
         no_shift_flags[9] = no_shift_flags[8] + mov8_flag;
         no_shift_flags[10] = no_shift_flags[9];
         no_shift_flags[11] = no_shift_flags[9];
         // SWAPW3; SWAPW2; HPERM
-        no_shift_flags[12] =
+        no_shift_flags[13] =
             no_shift_flags[9] - degree7_op_flags[29] + degree7_op_flags[28] + degree5_op_flags[0];
-        no_shift_flags[13] = no_shift_flags[12];
-        no_shift_flags[14] = no_shift_flags[12];
-        no_shift_flags[15] = no_shift_flags[12];
+        no_shift_flags[12] = no_shift_flags[13] - pipe_mstream_flag;
+        no_shift_flags[14] = no_shift_flags[13];
+        no_shift_flags[15] = no_shift_flags[13];
 
         // -------------------------- left shift composite flags computation ----------------------
 
@@ -869,6 +872,18 @@ impl<E: FieldElement> OpFlags<E> {
     #[inline(always)]
     pub fn mpverify(&self) -> E {
         self.degree5_op_flags[get_op_index(Operation::MpVerify.op_code())]
+    }
+
+    /// Operation Flag of PIPE operation.
+    #[inline(always)]
+    pub fn pipe(&self) -> E {
+        self.degree5_op_flags[get_op_index(Operation::Pipe.op_code())]
+    }
+
+    /// Operation Flag of MSTREAM operation.
+    #[inline(always)]
+    pub fn mstream(&self) -> E {
+        self.degree5_op_flags[get_op_index(Operation::MStream.op_code())]
     }
 
     /// Operation Flag of SPLIT operation.
